@@ -173,6 +173,16 @@ PROPS = {
         rule="a crawl of the real DefaultCrawler (scripted sender, parallelism 1/2/3/8) on a generated topology with failing, "
              "undialable and silent-list peers, seeds with duplicates and without addresses", trusted=[], shards={"quick": 4, "thorough": 16},
     ),
+    "C11": dict(
+        pkg="./internal/net", test="TestVerifC11", model="C11", verdict="C11v", level="proof", diff_is_failure=False,
+        rule="a case is a history of SendRequest / SendMessage / OnDisconnect calls and bursts of concurrent requests (NewStream held back "
+             "until all callers are under way) to 1-3 peers on the real message sender over fake streams, against remotes scripted "
+             "per request read: answer, reset, garbage, silence (read timeout in virtual time), EOF, NewStream failures, and "
+             "cancellation while waiting; compared per call: the id echoed in the reply (or error class), streams opened, stream kept; "
+             "non-trivial = >=2 fault scripts; distinct = case text",
+        trusted=["simnet streams + synctest virtual time", "which concurrent caller wins the per-peer lock is not modelled in the driver (bursts run against healthy remotes); every interleaving is covered by the lock-protocol theorems"],
+        shards={"quick": 8, "thorough": 16},
+    ),
     "C08": dict(
         pkg=".", test="TestVerifC08", model="C08", verdict="C08v", level="proof", diff_is_failure=True, also=["C15"],
         accept=lambda m, o: m == "-" or m == "pseq=*" or (" " + m + " ") in (" " + o + " "),
